@@ -759,6 +759,7 @@ func (p *Path) goMain(g *G, body func()) {
 		r := recover()
 		switch x := r.(type) {
 		case nil:
+			return // a non-harness goroutine finished normally (gExit handed the baton on)
 		case killed:
 			return
 		case pathEnd:
